@@ -237,6 +237,9 @@ static const struct {
    also.
 */
 int iswfc(const uint32_t wc) {
+    /* not a code point: must not reach the libc classification tables */
+    if (unlikely(wc > _UNICODE_MAX))
+        return 0;
     /* the slow variant would walk the 2 loops */
     if (likely((wc < 0xdf) || (wc > 0x0587 && wc < 0x1e96) ||
                (wc > 0x1FFC && wc < 0xFB00) || (wc > 0xFB17))) {
@@ -537,6 +540,11 @@ EXPORT int _towfc_s_chk(wchar_t *restrict dest, rsize_t dmax, const uint32_t src
 #endif
     }
 
+    if (unlikely(src > _UNICODE_MAX)) {
+        invoke_safe_str_constraint_handler("towfc_s: src exceeds max",
+                                           (void *)dest, ESLEMAX);
+        return -(ESLEMAX);
+    }
     if (src < 128) {
         dest[1] = L'\0';
         dest[0] = tolower(src);
